@@ -143,9 +143,19 @@ void trl(Ctx &c, bool near) {
     sc.dut = gen_dut(c, 2, sc.F);
     describe(c, sc);
     c.label(near ? "path:near-TRL" : "path:TRL"); if (near) { char nl[32]; snprintf(nl, sizeof nl, "near-TRL:kind%d", near_kind); c.label(nl); } c.label(std::string("type:") + vm::tname(sc.type));
+    // "lossy test set", one case in eight: both tracking terms of every port scaled by 10^-1.5 .. 10^-3, so that the
+    // transmission products of the closed-form line solution fall around the library's absolute singularity threshold
+    // (1e-8).  Below it the analytic solve legitimately fails (one error report, -1); above it it must be accurate to
+    // the conditioning.  Either way a success never comes with an error report.
+    bool lossy = c.chance(1, 8);
+    if (lossy) {
+        long double lam = std::pow(10.0L, -(1.5L + 1.5L * c.unit()));
+        for (auto &b : sc.box) for (int i = 0; i < 2; i++) { b.Er(i, i) *= lam; b.Et(i, i) *= lam; }
+        c.label("TRL:lossy-test-set"); c.note("  lossy test set: tracking terms scaled by %.3Lg", lam);
+    }
     long double kappa = 0; bool det = true;
     for (int f = 0; f < sc.F; f++) { vm::Ident id = ident_with_unknowns(sc, f); if (!id.determining) det = false; kappa = std::max(kappa, id.kappa); }
-    if (!near && !det) { c.label("filtered:not-determining"); return; }
+    if (!near && !lossy && !det) { c.label("filtered:not-determining"); return; }
     // A perfectly matched test port makes the closed-form reflect solution 0/0; the library then solves that
     // frequency with its general iterative method (default tolerances 1e-6), so the closed-form bound and the
     // "must succeed" assertion apply only when both ports have a match error (generated ones are >= 0.004).
@@ -153,6 +163,7 @@ void trl(Ctx &c, bool near) {
     for (int f = 0; f < sc.F; f++) for (int i = 0; i < 2; i++) if (sc.box[f].Em(i, i) == C(0, 0)) ideal_port = true;
     if (ideal_port) c.label("TRL:ideal-port");
     const bool iterative = near || ideal_port;
+    const bool may_fail = iterative || lossy;
 
     Runner run(c, sc); run.create(); run.alloc();
     // sets that go through the iterative solver (near-TRL, or TRL with an ideal port): a quarter get an iteration limit of
@@ -164,15 +175,16 @@ void trl(Ctx &c, bool near) {
     int rc2 = vnacal_new_solve(run.vnp); int err = errno;
     if (rc2 != 0) {
         PBT_CHECK(c, err == EDOM && run.log.n_nonwarning() >= 1, "C02.failure_report", "solve failed with errno %d (%s) / callbacks: %s", err, strerror(err), run.log.text().c_str());
-        PBT_CHECK(c, iterative, "C02.trl_failed", "analytic TRL failed on a well-conditioned instance (kappa %.3Lg): %s", kappa, run.log.text().c_str());
+        PBT_CHECK(c, may_fail, "C02.trl_failed", "analytic TRL failed on a well-conditioned instance (kappa %.3Lg): %s", kappa, run.log.text().c_str());
         c.label("solve:failed"); return;
     }
     c.label("solve:ok");
     PBT_CHECK(c, run.log.n_nonwarning() == 0, "C02.success_with_error_callback", "solve returned 0 but reported: %s", run.log.text().c_str());
-    if (near && !det) { c.label("near-TRL:not-determining"); return; }
+    if (lossy) c.label("TRL:lossy-test-set:solved");
+    if ((near || lossy) && !det) { c.label(near ? "near-TRL:not-determining" : "TRL:lossy-test-set:not-determining"); return; }
     c.nontrivial();
     check_solution(c, sc, run, iterative ? 1e-6L : 0, kappa, near ? "near-TRL" : ideal_port ? "TRL-ideal-port" : "TRL");      // near-TRL sets go through the iterative solver with the default tolerances (1e-6)
-    if (c.chance(1, 3)) resolve_on_other_grid(c, sc, run, iterative ? 1e-6L : 0, kappa, near ? "near-TRL-regrid" : ideal_port ? "TRL-ideal-port-regrid" : "TRL-regrid", !iterative, [](Runner &) {});
+    if (c.chance(1, 3)) resolve_on_other_grid(c, sc, run, iterative ? 1e-6L : 0, kappa, near ? "near-TRL-regrid" : ideal_port ? "TRL-ideal-port-regrid" : "TRL-regrid", !may_fail, [](Runner &) {});
 }
 
 // ---- (b) Levenberg-Marquardt ------------------------------------------------------------------
